@@ -199,6 +199,20 @@ theorem kv_buildNorm_both :
     have e : w' = (w1.newCond (.any ids)).1 := by rw [h2]
     rw [e, kv_newCond, this]
   case case18 =>
+    intro w a b iha ihb w' i h
+    simp only [buildNorm, Option.bind_eq_some_iff, Option.map_eq_some_iff, Prod.exists] at h
+    obtain ⟨w1, ia, h1, w2, ib, h2, h3⟩ := h
+    have e := congrArg Prod.fst h3
+    simp only at e
+    rw [← e, kv_newCond, ihb (w1, ia) w2 ib h2, iha w1 ia h1]
+  case case19 =>
+    intro w a b iha ihb w' i h
+    simp only [buildNorm, Option.bind_eq_some_iff, Option.map_eq_some_iff, Prod.exists] at h
+    obtain ⟨w1, ia, h1, w2, ib, h2, h3⟩ := h
+    have e := congrArg Prod.fst h3
+    simp only at e
+    rw [← e, kv_newCond, ihb (w1, ia) w2 ib h2, iha w1 ia h1]
+  case case21 =>
     intro w c cs ih2 ih1 w' is h
     simp only [buildNorms, Option.bind_eq_some_iff, Option.map_eq_some_iff, Prod.exists, Prod.mk.injEq] at h
     obtain ⟨w1, i1, h1, w2, is2, h2, rfl, _⟩ := h
